@@ -145,7 +145,14 @@ func runC19(r *mc.Run) {
 		{"bin-genuine-tdattributes-forbidden-bit1", []string{"-in", wf("tdattr1.bin", tdAttrBad)}, []int{4}},
 		{"bin-genuine-xfam-required-bit0-clear", []string{"-in", wf("xfam0.bin", xfamLow)}, []int{4}},
 		{"proto-genuine-xfam-forbidden-bit3", []string{"-in", wf("xfam3.pb", xfamBadPb), "-inform", "proto"}, []int{4}},
+		// the quote on standard input ("-" and the flag's default)
+		{"stdin-bin-valid", []string{"-in", "-"}, nil},
+		{"stdin-default-bin-valid", nil, nil},
+		{"stdin-proto-valid", []string{"-in=-", "-inform=proto"}, nil},
+		{"stdin-bin-forged", []string{"-in", "-"}, []int{2}},
+		{"stdin-empty", []string{"-in", "-"}, []int{1, 2}},
 	}
+	stdinFor := map[string][]byte{"stdin-bin-valid": raw, "stdin-default-bin-valid": raw, "stdin-proto-valid": pbBytes, "stdin-bin-forged": forged, "stdin-empty": {}}
 	tPem, fPem := wf("T.pem", world.PEM(T.Root)), wf("F.pem", world.PEM(F.Root))
 	notPem := wf("notpem.txt", []byte("hello"))
 	os.Mkdir(filepath.Join(dir, "adir"), 0o755)
@@ -205,6 +212,8 @@ func runC19(r *mc.Run) {
 		rf := c.Choose("flag.trusted_roots", len(rootFlags))
 		rc := c.Choose("cfg.roots", len(rootCfgs))
 		local := c.Choose("test_local_getter", 2)
+		// what the tool prints has no bearing on the exit code
+		output := c.Choose("output", 6)
 		id := "tool/" + c.ID()
 		if !r.Want(id) {
 			return
@@ -218,6 +227,7 @@ func runC19(r *mc.Run) {
 		if local == 1 {
 			args = append(args, "-test_local_getter")
 		}
+		args = append(args, [][]string{nil, {"-quiet"}, {"-verbosity=1"}, {"-quiet=true", "-verbosity=2"}, {"-quiet=false"}, {"-verbosity=-1"}}[output]...)
 		// policy fields
 		pol := &ccpb.Policy{}
 		cfgUsed := false
@@ -462,7 +472,7 @@ func runC19(r *mc.Run) {
 			allowed[0] = true
 		}
 		// run
-		code, stderr := runTool(bin, args)
+		code, stderr := runTool(bin, args, stdinFor[inputs[in].name])
 		out := fmt.Sprintf("exit%d", code)
 		var al []int
 		for k := range allowed {
@@ -543,12 +553,15 @@ func rotHasFields(rot *ccpb.RootOfTrust) bool {
 	return rot.CheckCrl || rot.GetCollateral || len(rot.CabundlePaths) > 0 || len(rot.Cabundles) > 0
 }
 
-func runTool(bin string, args []string) (int, string) {
+func runTool(bin string, args []string, stdin ...[]byte) (int, string) {
 	cmd := exec.Command(bin, args...)
 	var stderr bytes.Buffer
 	cmd.Stderr = &stderr
 	cmd.Stdout = nil
 	cmd.Stdin = bytes.NewReader(nil)
+	if len(stdin) > 0 {
+		cmd.Stdin = bytes.NewReader(stdin[0])
+	}
 	done := make(chan error, 1)
 	if err := cmd.Start(); err != nil {
 		return -2, err.Error()
